@@ -21,7 +21,6 @@ from typing import TYPE_CHECKING, Any
 from pynenc.arguments import Arguments
 from pynenc.conf.config_trigger import ConfigTrigger
 from pynenc.trigger.conditions import (
-    CompositeLogic,
     CronCondition,
     CronContext,
     EventCondition,
@@ -631,15 +630,12 @@ class BaseTrigger(ABC):
                 continue
             for vc_id in context.valid_conditions.keys():
                 condition_to_pending_triggers[vc_id].discard(trigger.trigger_id)
-            trigger_run_ids = trigger.generate_trigger_run_ids(context)
-            for run_id in trigger_run_ids:
+            # One run per occurrence (single condition / OR logic), or one run for
+            # all the conditions together (AND logic over several conditions)
+            for run_id, run_context in trigger.generate_trigger_runs(context):
                 if self.claim_trigger_run(run_id):
-                    args = trigger.get_arguments(context)
+                    args = trigger.get_arguments(run_context)
                     self.execute_task(trigger.task_id, args)
-                    # For OR logic, continue processing other run IDs
-                    # For AND logic, only one run ID is generated, so this has no effect
-                    if trigger.logic == CompositeLogic.AND:
-                        break
         # Clean up the valid conditions that are no longer needed
         # Because all the triggers that required already ran
         conditions_to_clean = [
